@@ -32,6 +32,7 @@ def mp_guard(f, name, gfn):
 
 def run(ctx):
     f = ctx.facts()
+    K.check_revocation_lookup(ctx, f, "ca::sigmsg")
     ctx.rule("R-CHK", "every success path passes a checked call to the sink (interprocedural)")
     ctx.rule("R-GRD", "success requires the guard literal (graph cut on its true edges)")
     ctx.rule("R-FLOW", "operand provenance (backward slice, composed along call chains) is the required source")
